@@ -342,6 +342,17 @@ def check_c01(args):
     cases, agree = run_sql_suite(seed + 1000, tier, "c01")
     stats = judge_suite(cases, v, "C01")
     rstats = check_rules(seed, tier, v)
+    # plan-level rules: the directed family of lib/planfam.py
+    import planfam
+    pcases = planfam.cases()
+    pruns, plabels = to_run_cases(pcases)
+    pouts = run_sharded("sql", pruns, tag="c01-plan", timeout=3000, case_timeout=30)
+    collect(pcases, pruns, plabels, pouts)
+    validate(pcases, "c01-plan")
+    oracle_selfcheck(pcases)
+    pstats = judge_suite(pcases, v, "C01")
+    rstats["plan_rule_family"] = {"queries": len(pcases), "observations": pstats["observations"],
+                                  "failures_by_kind": {" | ".join(k): n for k, n in pstats["errors"].items()}}
     import sqlknown
     sqlknown.run_repros(v, "C01")
     rc = v.finish()
